@@ -79,12 +79,7 @@ pub fn worker(args: &[String]) -> i32 {
     let want_log = args.get(6).map(|s| s == "--log").unwrap_or(false);
     // Only one simulation thread runs at a time, so the whole process is pinned to one core: baton
     // passes then stay on-core instead of waking a thread on another (busy) core.
-    unsafe {
-        let ncpu = libc::sysconf(libc::_SC_NPROCESSORS_ONLN).max(1) as u64;
-        let mut set: libc::cpu_set_t = std::mem::zeroed();
-        libc::CPU_SET((k % ncpu) as usize, &mut set);
-        let _ = libc::sched_setaffinity(0, std::mem::size_of::<libc::cpu_set_t>(), &set);
-    }
+    pin_to_core(k);
     let mut out = WorkerOut::default();
     let mut sigs: BTreeSet<u64> = BTreeSet::new();
     let mut cases_seen: BTreeSet<u64> = BTreeSet::new();
@@ -257,8 +252,21 @@ fn shrink(prop: &str, scenario: &Value, v: &Violation, budget: usize) -> (Value,
     (cur, used)
 }
 
+/// Every process that runs simulations is pinned to one core: baton passes stay on-core, and what
+/// the code under test can learn about the machine (`available_parallelism`) is the same - one
+/// core - in workers, while shrinking and in replays.
+pub fn pin_to_core(k: u64) {
+    unsafe {
+        let ncpu = libc::sysconf(libc::_SC_NPROCESSORS_ONLN).max(1) as u64;
+        let mut set: libc::cpu_set_t = std::mem::zeroed();
+        libc::CPU_SET((k % ncpu) as usize, &mut set);
+        let _ = libc::sched_setaffinity(0, std::mem::size_of::<libc::cpu_set_t>(), &set);
+    }
+}
+
 pub fn replay(args: &[String]) -> i32 {
     install_quiet_panic_hook();
+    pin_to_core(0);
     let Some(path) = args.first() else {
         eprintln!("replay <file>");
         return 2;
@@ -362,6 +370,7 @@ pub fn check(args: &[String]) -> i32 {
     let mut exit_code = 0;
     let mut violation_files = Vec::new();
     let replays_dir = verif_dir().join("replays");
+    pin_to_core(0); // shrinking re-executes scenarios in this process: same machine view as the workers
     for (key, f) in unknown_classes.iter().take(4) {
         let _ = std::fs::create_dir_all(&replays_dir);
         let (small, tried) = shrink(&prop, &f.scenario, &f.violation, 200);
